@@ -196,8 +196,8 @@ def gen_fragset(R, names, all_atom, squash=True):
             if m.atoms[a]['aromatic']:
                 # an aromatic atom takes at most one single-order ordinary descriptor: whether it is
                 # used or left over, the ring can always be kekulised
-                if d[a]:
-                    continue
+                if d[a] or m.free(a) < 1:
+                    continue        # (an aromatic atom that already has a substituent has no valence left)
                 d[a].append('[%s%s]' % (R.choice(['$', '$', '>', '<']), R.choice(DESC_LABELS)))
                 continue
             ok_sq = squash and not d[a] and m.atoms[a]['element'] == 'C' and not m.atoms[a]['charge'] and \
